@@ -55,6 +55,9 @@ EXPLANATION += ' R15 (WFX spin labels): the reading side is the whole wfx.load_o
 TECHNIQUE += '; model-stream evaluation of the Molden loader for the tag lines'
 EXPLANATION += ' R8 (and C03-R11): the reading side of the Molden tags is `_load_low` interpreted on a model stream with its three section readers replaced by model values (shells s..h, one orbital sized for the expected kinds), tags before and after the sections. R14..R19: the [GTO] writer may be a helper of the module.'
 # --- end metadata round-3 twins
+# --- metadata added after the round-4 refactoring twins
+EXPLANATION += ' R8: the table of kinds the tag statements read may come from a helper. R17: the FCHK reader block may be a helper that is handed the field dictionary. C03-R9 (Molden [MO]): the whole section reader on a model stream of three orbitals.'
+# --- end metadata round-4 twins
 
 
 def module_closure(prog, root):
